@@ -108,6 +108,14 @@ class ExplorerScriptSsbDecompiler:
         self._line_number = 1
         self.smb = SourceMapBuilder()
 
+        # String parameters remember the indent they were last printed with, and not every writer sets it.
+        # Start from a defined value, so that the output does not depend on what was printed before.
+        for rtn in self._routine_ops:
+            for op in rtn:
+                for param in op.params:
+                    if hasattr(param, "indent"):
+                        param.indent = 0
+
         raw_routine_backup_ops = deepcopy(self._routine_ops)
 
         # Step 1: Build labels
